@@ -247,6 +247,22 @@ func checkADTS(c adtsCase) *harness.Fail {
 	if *got != h {
 		return harness.Failf("C18|adts|roundtrip-mismatch", "Decode(Encode(%+v)=%x) = %+v", h, enc, *got)
 	}
+	// the public constructor (AAC-LC, variable bit rate) builds the same header for every table frequency and
+	// every payload length of the domain
+	if c.ObjectType == aac.AAClc && c.Fullness == 0x7ff {
+		for freq, idx := range aac.ReverseFrequencies {
+			if idx != c.FreqIdx {
+				continue
+			}
+			nh, err := aac.NewADTSHeader(freq, c.Channels, c.ObjectType, c.PayloadLen)
+			if err != nil {
+				return harness.Failf("C18|adts|constructor-error", "NewADTSHeader(%d, %d, %d, %d): %v", freq, c.Channels, c.ObjectType, c.PayloadLen, err)
+			}
+			if *nh != h {
+				return harness.Failf("C18|adts|constructor-mismatch", "NewADTSHeader(%d, %d, %d, %d) = %+v, want %+v", freq, c.Channels, c.ObjectType, c.PayloadLen, *nh, h)
+			}
+		}
+	}
 	return nil
 }
 
